@@ -35,10 +35,14 @@ func (d *drv) expr(text string, src string) {
 	}
 	d.seen[text] = true
 	ev := map[string]any{"text": text, "src": src}
-	sel, perr := parser.Parse(text)
-	verr := parser.Validate(text)
+	sel, perr := safeParse(text)
+	verr := safeValidate(text)
 	ev["parse_ok"] = perr == nil
 	ev["validate_ok"] = verr == nil
+	if perr == errPanic || verr == errPanic {
+		// a panic is recorded as "not accepted" (plus this informational flag)
+		ev["panicked"] = true
+	}
 	if perr == nil {
 		strs := map[string]bool{}
 		ast := selgen.Export(sel.Root(), strs)
@@ -50,9 +54,9 @@ func (d *drv) expr(text string, src string) {
 		if d.restr {
 			ev["restr"] = selgen.ExportRestrictions(sel.LabelRestrictions(), strs)
 		}
-		sel2, err2 := parser.Parse(canon)
+		sel2, err2 := safeParse(canon)
 		ev["re_ok"] = err2 == nil
-		ev["re_validate_ok"] = parser.Validate(canon) == nil
+		ev["re_validate_ok"] = safeValidate(canon) == nil
 		if err2 == nil {
 			ev["re_ast"] = selgen.Export(sel2.Root(), strs)
 			ev["re_canon"] = sel2.String()
@@ -67,6 +71,28 @@ func (d *drv) expr(text string, src string) {
 		ev["ct"] = selgen.CharTable(strs)
 	}
 	d.log.Emit("expr", ev)
+}
+
+var errPanic = fmt.Errorf("panic in the parser")
+
+func safeParse(text string) (sel *parser.Selector, err error) {
+	defer func() {
+		if r := recover(); r != nil {
+			sel, err = nil, errPanic
+		}
+	}()
+	// the package-level entry point (shared parser with its re-used token buffer; its mutex is
+	// released by a deferred Unlock, so recovering from a panic is safe)
+	return parser.Parse(text)
+}
+
+func safeValidate(text string) (err error) {
+	defer func() {
+		if r := recover(); r != nil {
+			err = errPanic
+		}
+	}()
+	return parser.Validate(text)
 }
 
 func (d *drv) evals(sel *parser.Selector) []bool {
